@@ -670,57 +670,4 @@ theorem clear_rep (p : PList) (xs fs : List Nat) (s : LState) (h : Rep p xs fs s
   · show (xs.reverse ++ fs).length = 4 * p1.nblocks
     rw [e4, perm.length_eq]; exact h.cnt
 
-/-- one operation of a history: the heap and the chain model accept the same operations and stay related -/
-theorem step_rep (p : PList) (xs fs : List Nat) (s : LState) (h : Rep p xs fs s) (op : POp) :
-    (step p op = none ∧ stepChain s op = none) ∨
-    ∃ p' s' xs' fs', step p op = some p' ∧ stepChain s op = some s' ∧ Rep p' xs' fs' s' := by
-  have hsize : s.size = xs.length := by simp [LState.size, h.nodes]
-  cases op with
-  | insert k v =>
-    by_cases hk : k ≤ xs.length
-    · right
-      obtain ⟨p', item, fs', e1, e2, _⟩ := insert_rep p xs fs s h k hk v
-      have hw := walk_seg p k xs none h.seg hk
-      rw [← h.beg] at hw
-      refine ⟨p', (s.insertRaw k v).1, _, fs', ?_, ?_, e2⟩
-      · simp only [step, h.sz, hk, if_true, hw, e1, Option.map_some]
-      · simp [stepChain, LState.insert, hsize, hk]
-    · left
-      exact ⟨by simp [step, h.sz, hk], by simp [stepChain, LState.insert, hsize, hk]⟩
-  | remove k =>
-    by_cases hk : k < xs.length
-    · right
-      have hx : xs = xs.take k ++ xs[k] :: xs.drop (k + 1) := by
-        rw [List.getElem_cons_drop, List.take_append_drop]
-      have h' : Rep p (xs.take k ++ xs[k] :: xs.drop (k + 1)) fs s := by rw [← hx]; exact h
-      obtain ⟨p', e1, e2⟩ := unlink_rep p (xs.take k) (xs.drop (k + 1)) fs xs[k] s h'
-      have hw := walk_seg p k xs none h.seg (Nat.le_of_lt hk)
-      rw [← h.beg] at hw
-      have hd : (xs.drop k).headD 0 = xs[k] := by
-        rw [List.drop_eq_getElem_cons hk]; rfl
-      have hlen : (xs.take k).length = k := by simp; omega
-      rw [hlen] at e2
-      have hn : s.nodes[k]? = some (xs[k] - 1, p.val xs[k]) := by
-        rw [h.nodes]; simp [hk]
-      refine ⟨p', _, _, _, ?_, ?_, e2⟩
-      · simp only [step, h.sz, hk, if_true, hw, hd, e1, Option.map_some]
-      · simp [stepChain, LState.remove, hn]
-    · left
-      have hn : s.nodes[k]? = none := by rw [h.nodes]; simp; omega
-      exact ⟨by simp [step, h.sz, hk], by simp [stepChain, LState.remove, hn]⟩
-  | clear =>
-    right
-    obtain ⟨p', e1, e2⟩ := clear_rep p xs fs s h
-    exact ⟨p', s.clear, _, _, e1, rfl, e2⟩
-
-theorem run_rep (ops : List POp) : ∀ (p : PList) (xs fs : List Nat) (s : LState), Rep p xs fs s →
-    ∃ xs' fs', Rep (run p ops) xs' fs' (runChain s ops) := by
-  induction ops with
-  | nil => intro p xs fs s h; exact ⟨xs, fs, h⟩
-  | cons op ops ih =>
-    intro p xs fs s h
-    rcases step_rep p xs fs s h op with ⟨e1, e2⟩ | ⟨p', s', xs', fs', e1, e2, h'⟩
-    · simp only [run, runChain, e1, e2]; exact ih p xs fs s h
-    · simp only [run, runChain, e1, e2]; exact ih p' xs' fs' s' h'
-
 end Nstd.Seq.Ptr
